@@ -490,6 +490,12 @@ func (r *aeRun) cmp3o(x, y any, ordered bool) int {
 			if a.side == b.side || r.eqOverride[a.key] {
 				return 0
 			}
+			// an ordered comparison of two values of a term whose constants were only ever tested for
+			// equality: the constants must take their places in the order (and the values between them
+			// their gaps), otherwise "alpha < anything else" would hold by construction
+			if ordered && !r.ctx.orderedConst[a.key] && len(r.ctx.pools[a.key]) > 0 && r.ctx.terms[a.key] != nil && r.ctx.terms[a.key].kind == akOrder {
+				panic(orderedMiss{a.key})
+			}
 			return r.cmpKey(a.key, a.side, b.side)
 		}
 	case avIndex:
